@@ -39,12 +39,12 @@ CHECKS["C11"] = ("DESIGN §4 C11",
     "every configuration of the stated alphabets is evaluated on the real law classes and change-of-basis helpers and compared with an independent fourth-order-tensor reference (own Kelvin-Mandel conversion, own rotation)",
     "trusted: numpy; own tensor <-> Kelvin-Mandel conversion; tolerance 1e-10..1e-12 relative")
 CHECKS["C14"] = ("DESIGN §4 C14",
-    "explicit-state exploration, unmerged: every sequence of public mutating operations (depth 2 with an observation after every operation, depth 3 with one final observation in quick; depth 3 thorough) for 7 simulation scenarios, and all ordered pairs of parameter assignments on a model shared by two simulations; differential oracle = freshly built simulation in the final configuration",
+    "explicit-state exploration, unmerged: every sequence of public mutating operations (depth 2 with an observation after every operation, depth 3 with one final observation in quick; depth 3 thorough) for 11 simulation scenarios (every simulation type: elastic 2D/3D, anisotropic, thermal, hyperelastic, beam 2D/3D, phase-field with both irreversibility families, inelastic, user weak forms), depth 3-4 over reduced mesh / restore alphabets, all ordered pairs of parameter assignments on a model shared by two simulations, and the public beam operations; differential oracle = freshly built simulation in the final configuration",
     "all operation histories up to the depth bound are executed on the real objects with primed caches; no hand-written expected values: the live object must agree with a new mesh + new model + new simulation carrying the same configuration and state",
     "trusted: the harness's record of parameters and conditions; the live coordinates and state are read through public getters; phase-field compares the displacement system only")
 
 CHECKS["C15"] = ("DESIGN §4 C15",
-    "explicit-state exploration, unmerged: for 10 simulation scenarios and 3 prefixes every sequence of {solve a/b, save iteration, folder ''/A/B, restore 0/last, read stored, Result(iter=0), replace mesh, Save+Load_Simu} up to depth 2 (quick) / 3 (thorough); invariants against the harness's own deep-copied snapshots after every operation",
+    "explicit-state exploration, unmerged: for 16 simulation scenarios and 6 prefixes every sequence of 15 operations {solve a/b, save iteration (plain / with user data), folder ''/A/B, restore 0/last (with and without query), read stored, Result(iter=0 / -1), replace mesh, Save+Load_Simu} up to depth 2 (quick; depth 3 over 5 folder / reload / restore operations after the two-mesh prefix) / 3 (thorough); every array handed out by a query is overwritten by the harness; invariants against the harness's own deep-copied snapshots after every operation",
     "all operation histories up to the depth bound are executed on the real simulations (in-memory and on-disk iterations); the oracle is a list of snapshots taken through public getters at save time",
     "trusted: deep copies taken by the harness; exact equality for stored entries, 1e-12 for restored fields; scratch folders under mkdtemp")
 
@@ -75,7 +75,7 @@ CHECKS["C01"] = ("DESIGN §4 C01",
     "every configuration of the stated alphabets is solved by the real pipeline; by linearity of the solve in the prescribed field the basis of linear fields decides all linear fields; closed-form oracle for interior values, strain, stress, energy, beam forces",
     "trusted: numpy closed forms (own Kelvin-Mandel conversion, own laws in zoo/c01_ref.py); tolerance 1e-9")
 CHECKS["C04"] = ("DESIGN §4 C04",
-    "exhaustive enumeration of ALL ordered boundary-condition programs of <= 3 atoms (156) x ground support position x orphan node x resolution (elimination / Lagrange / beam connections) x mode (linear, Newton-incremental, one implicit time step) x every installed solver backend, on 4 small problems",
+    "exhaustive enumeration of ALL ordered boundary-condition programs of <= 3 atoms (156) x ground support position x orphan node x resolution (elimination / Lagrange / beam connections) x mode (linear, Newton-incremental, one implicit time step) x every installed solver backend, on 5 small problems; plus bounded histories on one live simulation (caller-owned value arrays reused, conditions entered in stages with Lagrange conditions present), hinged connections against closed forms and every Krylov backend on a slender problem",
     "every BC program of the bounded grammar is solved by the real code with every backend; dense numpy elimination / KKT reference; sum convention for duplicated dofs as documented in _Bc_Add_Dirichlet",
     "trusted: numpy dense solves; petsc/pypardiso/mumps and MPI not installed and not exercised; Krylov backends held to 20x their default rtol")
 CHECKS["C16"] = ("DESIGN §4 C16",
